@@ -421,6 +421,17 @@ def r11_5(ctx: Ctx) -> None:
     badm = [f"line {n.lineno}: store to {t}" for n, t in _stores(am.node) if "." in t.split("[")[0]]
     ctx.record("R11.5", ctx.key(am, "mask construction stores only mask entries"), am.loc(), not badm,
                "only mask[...] is written" if not badm else "action_mask writes other state", badm[:6])
+    # the environment hands out a freshly computed mask: action_masks() stores nothing on the environment and returns
+    # game.action_mask(...) itself (a mask kept across calls survives a reset / a state change made outside step())
+    em = ix.method("PrimaiteGymEnv.action_masks")
+    bade = [f"line {n.lineno}: store to {t}" for n, t in _stores(em.node) if "." in t.split("[")[0]]
+    reads_memo = [unparse(r.value)[:50] for r in ast.walk(em.node) if isinstance(r, ast.Return) and r.value is not None
+                  and any(isinstance(x, ast.Attribute) and isinstance(x.value, ast.Name) and x.value.id == "self" and x.attr.startswith("_") and "mask" in x.attr
+                          for x in ast.walk(r.value))]
+    ctx.record("R11.5", ctx.key(em, "the environment computes the mask on every call"), em.loc(), not bade and not reads_memo,
+               "action_masks() keeps nothing between calls" if not bade and not reads_memo else
+               "action_masks() remembers a mask on the environment: after a reset (or any change outside step) the remembered mask of the old "
+               "state is served", (bade + reads_memo)[:4])
     # pre_timestep closure
     n_pre = 0
     simc = ix.cls("SimComponent")
